@@ -343,6 +343,27 @@ theorem f11_counterexample :
     (changeUnitH h0 pe0 .millimeters).1.getD res.addr [] = [1, 2] := by
   decide +kernel
 
+/-! ## one metric object used for several evaluations -/
+
+/-- if `process_data` named the native unit again, label and values of every later result would
+agree whatever happened to the object before -/
+theorem reprocess_with_reset_names_native_unit (native : U) (pe : PE) (vals : List Rat) :
+    (processDataReset native pe vals).unit = native ∧ (processDataReset native pe vals).error = vals ∧
+    (processDataReset native pe vals).piPow = 0 := ⟨rfl, rfl, rfl⟩
+
+/-- **the code as it is**: `process_data; change_unit(mm); process_data; get_result` — the second
+evaluation's values are the fresh ones, in metres, but the object still says millimetres, so the
+label reads "APE (mm)" over metre values (and a later `change_unit(m)` divides them by 1000). -/
+theorem metric_reuse_keeps_converted_unit_counterexample :
+    let pe0 : PE := { unit := apeUnit .translation_part, error := [1] }
+    let pe1 := (changeUnit pe0 .millimeters).getD pe0
+    let pe2 := processData pe1 [2]
+    pe1 = { unit := .millimeters, error := [1000] } ∧
+    pe2 = { unit := .millimeters, error := [2] } ∧ metricLabel "APE" pe2.unit = "APE (mm)" ∧
+    processDataReset (apeUnit .translation_part) pe1 [2] = { unit := .meters, error := [2] } ∧
+    changeUnit pe2 .meters = some { unit := .meters, error := [1 / 500] } := by
+  decide +kernel
+
 /-! ## companion arrays -/
 
 /-- **APE: every companion array has exactly one entry per pose (= per error value)**;
